@@ -77,6 +77,8 @@ pub enum Un {
   Collect,
   OnErrorMap(u8),
   // ---- beyond the C03 catalogue
+  /// harness instrumentation: `defer(|| {live += 1; inner}).finalize(|| live -= 1)`
+  TrackLive,
   OnError,
   OnComplete,
   Finalize,
@@ -252,7 +254,7 @@ pub fn gen_un_c03(c: &mut dyn Choices, len_hint: usize, alphabet: usize) -> Un {
     2 => Un::Filter(gen_pred(c)),
     3 => Un::FilterMap,
     4 => Un::Tap,
-    5 => Un::Take(gen_count(c, len_hint, 1)),
+    5 => Un::Take(gen_count(c, len_hint, 0)),
     6 => Un::Skip(gen_count(c, len_hint, 0)),
     7 => Un::TakeWhile(gen_pred(c)),
     8 => Un::TakeWhileInclusive(gen_pred(c)),
